@@ -1327,18 +1327,20 @@ pub tracked struct Trace {
     pub ghost reack: bool,
     /// receiver only: content of the file being written, as of the last write attempt
     pub ghost stored: Seq<u8>,
+    /// receiver only: consecutive receive attempts that brought no datagram at all (time-outs) since the last datagram of any kind
+    pub ghost silent: nat,
 }
 
 /// the trace of a transfer that has not started
 pub open spec fn trace_is_fresh(t: Trace) -> bool {
     t.ev.len() == 0 && t.credit == 0 && t.last is None && t.fails == 0 && t.fresh && t.now_mark == 0 && t.snap_elems.len() == 0 && t.snap_ev_len == 0
-    && !t.handling && t.accepted.len() == 0 && !t.fin && !t.reack && t.stored == Seq::<u8>::empty()
+    && !t.handling && t.accepted.len() == 0 && !t.fin && !t.reack && t.stored == Seq::<u8>::empty() && t.silent == 0
 }
 pub proof fn trace_fresh() -> (tracked t: Trace)
     ensures trace_is_fresh(t),
 {
     Trace { ev: Seq::empty(), credit: 0, last: None, fails: 0, fresh: true, last_now: arbitrary(), now_mark: 0, snap_bn: 0, snap_elems: Seq::empty(),
-            snap_ev_len: 0, handling: false, accepted: Seq::empty(), fin: false, reack: false, stored: Seq::empty() }
+            snap_ev_len: 0, handling: false, accepted: Seq::empty(), fin: false, reack: false, stored: Seq::empty(), silent: 0 }
 }
 
 /// n copies of x
@@ -1796,12 +1798,13 @@ pub open spec fn receiver_after_recv(t: Trace, v: Option<PktV>, blk: nat) -> Tra
     match v {
         Some(PktV::Data { block_num, data }) =>
             if block_num == wire((t.accepted.len() + 1) as int) {
-                Trace { last: v, accepted: t.accepted.push(data), fin: data.len() < blk, handling: true, ..t }
+                Trace { last: v, accepted: t.accepted.push(data), fin: data.len() < blk, handling: true, silent: 0, ..t }
             } else {
-                Trace { last: v, reack: true, handling: true, ..t }
+                Trace { last: v, reack: true, handling: true, silent: 0, ..t }
             },
-        Some(PktV::Error { .. }) => Trace { last: v, handling: true, ..t },
-        _ => Trace { last: v, fails: t.fails + 1, handling: true, ..t },
+        Some(PktV::Error { .. }) => Trace { last: v, handling: true, silent: 0, ..t },
+        Some(_) => Trace { last: v, fails: t.fails + 1, handling: true, silent: 0, ..t },
+        None => Trace { last: v, fails: t.fails + 1, handling: true, silent: t.silent + 1, ..t },
     }
 }
 
